@@ -140,19 +140,26 @@ func joinAfterPredecessorLeft() (problem string, keyHolder uint64, owner uint64)
 	leaveDone := make(chan struct{})
 	go func() { r.members[L].Node.Leave(); close(leaveDone) }()
 	defer func() { <-leaveDone }()
-	sawLock := false
-	for i := 0; i < 100000; i++ {
-		ls, ss := r.members[L].Node.VerifState(), r.members[S].Node.VerifState()
-		if ss == chord.Transferring {
-			sawLock = true
+	// S was never membership-locked while the ring was built (all joins were granted by P), so a
+	// Transferring entry in its state history means the leave request has been granted
+	lockedOnce := func() bool {
+		for _, st := range r.members[S].Node.VerifStateHistory() {
+			if st == chord.Transferring {
+				return true
+			}
 		}
-		if ls == chord.Left && ss == chord.Active && sawLock {
+		return false
+	}
+	completed := false
+	for deadline := time.Now().Add(15 * time.Second); time.Now().Before(deadline); {
+		if r.members[L].Node.VerifState() == chord.Left && r.members[S].Node.VerifState() == chord.Active && lockedOnce() {
+			completed = true
 			break
 		}
 		time.Sleep(50 * time.Microsecond)
 	}
-	if st := r.members[L].Node.VerifState(); st != chord.Left || !sawLock {
-		return "precondition: leave did not complete: " + st.String(), 0, 0
+	if !completed {
+		return "precondition: leave did not complete: " + r.members[L].Node.VerifState().String(), 0, 0
 	}
 	if pre := r.members[S].Node.VerifPredecessor(); pre == nil || pre.ID() != L {
 		return "precondition: successor already repaired its predecessor pointer", 0, 0
